@@ -56,7 +56,8 @@ class Bounded:
         self._per_name = getattr(self, "_per_name", {})
         n = self._per_name.get(name, 0)
         self._per_name[name] = n + 1
-        if n < 30 and len(self.failures) < 600:
+        cap = int(os.environ.get('VERIF_FAIL_CAP', str(getattr(self, 'fail_cap', 30))))
+        if n < cap and len(self.failures) < max(600, cap):
             self.failures.append(dict(name=name, input=inp, detail=str(detail)[:800]))
 
     def error(self, msg):
